@@ -181,33 +181,3 @@ pub fn const_values() {
     assert!(tr::LOG2_E.to_bits() == 12102203 && tr::E.to_bits() == 22802600);
 }
 
-// ---- C13 twins (bounded: coarse operand grids; the proof for all operands and types is the Verus unit sqrtacc).
-// (r - 4)^2 <= x * 2^F <= (r + 4)^2 in units of the last place, evaluated exactly in i128 / u128.
-fn within4(r: i128, n: i128) -> bool { r >= 0 && n <= (r + 4) * (r + 4) && (r < 4 || (r - 4) * (r - 4) <= n) }
-#[cfg(kani)]
-#[kani::proof]
-#[kani::unwind(34)]
-pub fn sqrt_acc_i9f23_grid() {
-    // x = k / 8 for k = 0 ..= 255 (includes the reciprocal path for k < 8)
-    let k: u8 = kani::any();
-    let x = I9F23::from_bits((k as i32) << 20);
-    let r: Result<I9F23, &'static str> = tr::sqrt(x);
-    match r {
-        Ok(v) => assert!(within4(v.to_bits() as i128, ((k as i128) << 20) << 23)),
-        Err(_) => assert!(false),
-    }
-}
-#[cfg(kani)]
-#[kani::proof]
-#[kani::unwind(66)]
-pub fn sqrt_acc_i32f32_pow2() {
-    // x = 2^j for j = 0 ..= 30: wide-integer operands, where too few Newton steps show first
-    let j: u8 = kani::any();
-    kani::assume(j <= 30);
-    let x = I32F32::from_bits(1i64 << (32 + j as u32));
-    let r: Result<I32F32, &'static str> = tr::sqrt(x);
-    match r {
-        Ok(v) => assert!(within4(v.to_bits() as i128, (1i128 << (32 + j as u32)) << 32)),
-        Err(_) => assert!(false),
-    }
-}
